@@ -446,7 +446,7 @@ pub fn run(ctx: &Ctx) -> i32 {
                 }
             }
             for t in 0..DEEP_TARGETS.len() {
-                if ctx.tier == Tier::Quick && t >= 3 && !matches!(f, 1 | 3 | 7 | 8) {
+                if ctx.tier == Tier::Quick && t >= 3 && !matches!(f, 1 | 3 | 7 | 8 | 9) {
                     continue;
                 }
                 grid.push((f, nn, t));
